@@ -74,9 +74,13 @@ Definition adjust_bound (len step b : Z) : Z :=
   if b <? 0 then (let b' := b + len in if b' <? 0 then (if step <? 0 then -1 else 0) else b')
   else if len <=? b then (if step <? 0 then len - 1 else len)
   else b.
-Definition slice_indices (len start stop step : Z) : list Z :=
+(* stop = None is the omitted bound of seq[start::step] / slice(start, None, step) *)
+Definition slice_indices (len start : Z) (stop : option Z) (step : Z) : list Z :=
   let a := adjust_bound len step start in
-  let b := adjust_bound len step stop in
+  let b := match stop with
+           | Some s => adjust_bound len step s
+           | None => if step <? 0 then -1 else len
+           end in
   if step =? 1 then zrange a (b - a)
   else if step =? -1 then map (fun i => a - i) (zrange 0 (a - b))
   else [].
@@ -157,12 +161,15 @@ Definition setup (j : job) : outcome params :=
   bind (get3 isize) (fun is3 => bind (get3 ichunk) (fun ic3 =>
   Ok {| pr_p := p3; pr_inv := inv3; pr_q := q; pr_isize := is3; pr_ichunk := ic3 |}))))))))).
 
-(* the file indices read for slice group g *)
+(* the file indices read for slice group g:
+     slice_slicing = np.s_[first_slice : last_slice if last_slice >= 0 else None : inv2] *)
 Definition group_sel (nfiles n d inv2 g : Z) : list Z :=
   let first_o := d * g in
   let last_o := Z.min (d * (g + 1)) n in
-  if inv2 =? -1 then slice_indices nfiles (n - first_o - 1) (n - last_o - 1) inv2
-  else slice_indices nfiles first_o last_o inv2.
+  if inv2 =? -1 then
+    let last := n - last_o - 1 in
+    slice_indices nfiles (n - first_o - 1) (if 0 <=? last then Some last else None) inv2
+  else slice_indices nfiles first_o (Some last_o) inv2.
 
 (* the oriented block of one slice group: [c, Z, Y, X] *)
 Definition group_block (pr : params) (dirs : list dirinfo) (g : Z) : arr4 :=
@@ -331,10 +338,7 @@ Definition designated (code : list N) (size : Z * Z * Z) (dirs : list dirinfo) (
   | _ => None
   end.
 
-(* ---------- guard ---------- *)
-Definition slice_axis_forward (code : list N) : bool :=
-  match code with [_; _; l2] => letter_positive l2 | _ => false end.
-
+(* ---------- well-formed jobs ---------- *)
 Definition input_size_of (code : list N) (size : Z * Z * Z) : option (Z * Z * Z) :=   (* (w, h, n) *)
   let '(sx, sy, sz) := size in
   let ext l := match letter_axis l with Some 0%nat => Some sx | Some 1%nat => Some sy
@@ -360,5 +364,6 @@ Definition job_wf (j : job) : bool :=
   | _, _ => false
   end.
 
-Definition c15_guard (j : job) : bool :=
-  existsb (code_eqb (j_code j)) possible_axis_orientations && slice_axis_forward (j_code j) && job_wf j.
+(* a code of the table and an input that really is a stack of the announced size *)
+Definition c15_wf (j : job) : bool :=
+  existsb (code_eqb (j_code j)) possible_axis_orientations && job_wf j.
